@@ -736,10 +736,30 @@ func historyDigests(seed uint64, orders int, first int) []map[string]string {
 // depends on the order index: a result that depends on which scheme (or which other range) was evaluated
 // earlier in the process - e.g. a cache keyed without the scheme - differs between the parent's first
 // order and the fresh child's first order.
+type cop struct{ text, probe string }
+
 func crossSchemeHistory(seed uint64, out []map[string]string, first int) {
+	ops := crossOps(seed)
+	for o := range out {
+		perm := core.Rand(seed, "C19", "crossorder", itoa(o+first)).Perm(len(ops))
+		if o+first == 0 {
+			perm = identity(len(ops))
+		}
+		for _, k := range perm {
+			out[o]["cross#"+itoa(k)] = crossExec(ops[k])
+		}
+	}
+}
+
+func crossExec(o cop) string {
+	ok, err, pn := eco.SafeVersContains(o.text, o.probe)
+	return "VersContains|" + o.text + "|" + o.probe + "=>" + strconv.FormatBool(ok) + ":" + strconv.FormatBool(err == nil) + ":" + strconv.FormatBool(pn == nil)
+}
+
+// crossOps: the same constraint bodies under all 11 schemes (+ twin questions).
+func crossOps(seed uint64) []cop {
 	cands := []string{"1.0.0-1", "1.0.0", "2.0.0-1", "2.0.0", "1.0.0-alpha", "1.0.0-rc.1", "1.0a1", "1.0.post1", "1.0-1", "1.10", "1.9", "0.9", "1.0.0-beta", "1.0",
 		"1.0.0-10", "1.0.0-2", "1.0.0-x", "3.0.0", "1.0_p1", "1.0~rc1", "1.0.0.1", "1.0.0-a.b", "v1.0.0", "1.0-sp", "1.0.0-0", "10", "9"}
-	type cop struct{ text, probe string }
 	var ops []cop
 	r := core.Rand(seed, "C19", "cross")
 	for k := 0; k < 60; k++ {
@@ -768,15 +788,132 @@ func crossSchemeHistory(seed uint64, out []map[string]string, first int) {
 			}
 		}
 	}
-	for o := range out {
-		perm := core.Rand(seed, "C19", "crossorder", itoa(o+first)).Perm(len(ops))
-		if o+first == 0 {
-			perm = identity(len(ops))
+	return ops
+}
+
+// hotStorm: G goroutines hammer ONE shared object (a version as Compare receiver and argument, a range, the ecosystem
+// value as parser, one VERS body under all schemes) in tight loops with different partners, in the normal (fast) build
+// on all cores; every result is compared with the sequential answer computed beforehand on separate copies. Unlike the
+// race storm, whose operations are spread over 64 + 32 objects, two calls are inside the same object at the same
+// moment almost all the time: "atomics only" memo fields that are published as two separate stores, single-flight
+// tables and per-object caches are race-detector clean and wrong only here.
+func hotStorm(c *core.Ctx, w *core.W) {
+	const G = 16
+	iters := c.Scale(3000, 40000)
+	var mu sync.Mutex
+	reported := map[string]int{}
+	report := func(v core.Violation) {
+		mu.Lock()
+		defer mu.Unlock()
+		if reported[v.Eco+v.Args[0]] < 2 {
+			reported[v.Eco+v.Args[0]]++
+			w.Report(v)
 		}
-		for _, k := range perm {
-			ok, err, pn := eco.SafeVersContains(ops[k].text, ops[k].probe)
-			out[o]["cross#"+itoa(k)] = "VersContains|" + ops[k].text + "|" + ops[k].probe + "=>" + strconv.FormatBool(ok) + ":" + strconv.FormatBool(err == nil) + ":" + strconv.FormatBool(pn == nil)
+	}
+	storm := func(name, kind string, n int, want []string, call func(i int) string, arg func(i int) []string) {
+		var wg sync.WaitGroup
+		start := make(chan struct{})
+		for g := 0; g < G; g++ {
+			wg.Add(1)
+			go func(g int) {
+				defer wg.Done()
+				<-start
+				for k := 0; k < iters; k++ {
+					i := (g*7919 + k*31 + k/7) % n
+					got := func() (s string) {
+						defer func() {
+							if p := recover(); p != nil {
+								s = fmt.Sprint("panic: ", p)
+							}
+						}()
+						return call(i)
+					}()
+					if got != want[i] {
+						report(core.Violation{Eco: name, Op: "hot-object", Args: append([]string{kind}, arg(i)...), Rule: "result-differs-under-concurrency-on-one-object", Got: got, Want: want[i]})
+						return
+					}
+				}
+			}(g)
 		}
+		close(start)
+		wg.Wait()
+		mu.Lock()
+		w.Count("evaluations", int64(G*iters))
+		w.Count("hot_object_calls:"+kind, int64(G*iters))
+		w.Count("hot_objects", 1)
+		w.NT(core.Hash64("hot", name, kind, itoa(n)))
+		mu.Unlock()
+	}
+	for _, name := range eco.Names() {
+		r := c.Rand("hot", name)
+		spec := buildShared(name, r, 48, 16)
+		if len(spec.vstr) < 8 {
+			continue
+		}
+		sh, seq := spec.materialise(), spec.materialise()
+		nv := len(sh.vers)
+		for rep := 0; rep < 3; rep++ {
+			h := r.IntN(nv)
+			want := make([]string, nv)
+			for i := range want {
+				want[i] = itoa(seq.vers[h].Compare(seq.vers[i])) + "/" + itoa(seq.vers[i].Compare(seq.vers[h]))
+			}
+			storm(name, "Compare", nv, want, func(i int) string {
+				return itoa(sh.vers[h].Compare(sh.vers[i])) + "/" + itoa(sh.vers[i].Compare(sh.vers[h]))
+			},
+				func(i int) []string { return []string{spec.vstr[h], spec.vstr[i]} })
+			if len(sh.rngs) > 0 {
+				k := r.IntN(len(sh.rngs))
+				for i := range want {
+					want[i] = strconv.FormatBool(seq.rngs[k].Contains(seq.vers[i]))
+				}
+				storm(name, "Contains", nv, want, func(i int) string { return strconv.FormatBool(sh.rngs[k].Contains(sh.vers[i])) },
+					func(i int) []string { return []string{spec.rstr[k], spec.vstr[i]} })
+			}
+		}
+		// the ecosystem value as a shared parser: different strings at the same time
+		want := make([]string, nv)
+		pv := func(e *eco.Eco, vs []eco.Ver, i int) string {
+			v, err := e.NewVersion(spec.vstr[i])
+			if err != nil || v == nil {
+				return "rejected"
+			}
+			j := (i + 1) % nv
+			return v.String() + "|" + itoa(v.Compare(vs[i])) + "|" + itoa(v.Compare(vs[j]))
+		}
+		for i := range want {
+			want[i] = pv(seq.e, seq.vers, i)
+		}
+		storm(name, "NewVersion", nv, want, func(i int) string { return pv(sh.e, sh.vers, i) }, func(i int) []string { return []string{spec.vstr[i]} })
+		if nr := len(spec.rstr); nr > 0 {
+			wantR := make([]string, nr)
+			pr := func(e *eco.Eco, vs []eco.Ver, i int) string {
+				g, err := e.NewRange(spec.rstr[i])
+				if err != nil || g == nil {
+					return "rejected"
+				}
+				return g.String() + "|" + strconv.FormatBool(g.Contains(vs[i%nv]))
+			}
+			for i := range wantR {
+				wantR[i] = pr(seq.e, seq.vers, i)
+			}
+			storm(name, "NewVersionRange", nr, wantR, func(i int) string { return pr(sh.e, sh.vers, i) }, func(i int) []string { return []string{spec.rstr[i]} })
+		}
+	}
+	// one VERS body under all schemes at the same time
+	ops := crossOps(c.Seed)
+	want := make([]string, len(ops))
+	for i, o := range ops {
+		want[i] = crossExec(o)
+	}
+	for rep := 0; rep < 3; rep++ {
+		storm("vers", "VersContains", len(ops), want, func(i int) string { return crossExec(ops[i]) }, func(i int) []string { return []string{ops[i].text, ops[i].probe} })
+	}
+	// ... and tightly: the goroutines walk the SAME body, each under its own scheme, in lockstep order
+	per := 5 * len(Schemes)
+	for b := 0; b+per <= len(ops) && b < 40*per; b += per {
+		sub, subWant := ops[b:b+per], want[b:b+per]
+		storm("vers", "VersContains-one-body", len(sub), subWant, func(i int) string { return crossExec(sub[i]) }, func(i int) []string { return []string{sub[i].text, sub[i].probe} })
 	}
 }
 
@@ -943,6 +1080,9 @@ func runC19(c *core.Ctx, ck *Check) {
 			w.Sample(map[string]any{"eco": name, "shared_versions": spec.vstr[:6], "shared_ranges": spec.rstr[:min(4, len(spec.rstr))], "vers_ranges": spec.vtexts[:min(2, len(spec.vtexts))]})
 		}
 	}
+
+	// (1b) hot objects in the fast build
+	hotStorm(c, w)
 
 	// (2) history independence: 8 shuffled orders here, once in a fresh process
 	hd := historyDigests(c.Seed, 8, 0)
